@@ -420,6 +420,11 @@ class CohGen:
                 else:
                     members.append(S.Op(op, me, (S.Arg(S.T(name, self.cur_ns, (), True, '&'), self.lname()),)))
         self.cur_class = None
+        if any(m.k == 'Method' and m.name in ('serialize', 'serializable') for m in members) and not rec['default_ctor']:
+            # DOCS.md: serialize() requires a publicly accessible default constructor (the generated pickle support
+            # needs one for serializable() as well although DOCS.md says otherwise: known finding D43)
+            members.insert(0, S.Ctor(name, ()))
+            rec['default_ctor'] = True
         self.classes.append(rec)
         return S.Class(name, tuple(members), tmpl, virtual, base)
 
@@ -472,6 +477,13 @@ class CohGen:
         funcs = []
         for i in range(ncls):
             items.append(self.klass())
+            c = items[-1]
+            if self.f['typedefs'] and self.target == 'pybind' and c.template and r.random() < 0.4:
+                # one further instantiation through a typedef, with arguments that are not in the lists
+                # (char / unsigned char are never list elements here), declared after the template
+                targs = tuple(S.T(r.choice(['unsigned char', 'char'])) if j == 0 else r.choice(p.insts)
+                              for j, p in enumerate(c.template))
+                items.append(S.Typedef(S.T(c.name, self.cur_ns, targs), self.uname()))
             if self.f['functions'] and r.random() < 0.4:
                 fn = self.func(funcs)
                 if fn:
